@@ -144,6 +144,22 @@ check('C14', 'model_checking',
       'through the real CLI callback',
       'tlc-data')
 
+check('C13', 'model_checking',
+      'InputSpec.tla defines the bag of simulations a specification denotes; '
+      'InputSpec_Model.tla enumerates every shape (ranges / list of ranges / '
+      'runs, 1..K values per axis, dict and list parameter forms, decoder '
+      'parameters absent / dict / list), checks the denotation and emits the '
+      'shapes; each is materialised, read by read_input_dict and '
+      'expand_input_ranges, and TLC (C13_Data.tla) judges the simulations '
+      'built as a bag against ExactlyRequested, plus every registry entry '
+      'and a rebuild-from-recorded-inputs per code class.',
+      'DESIGN.md 4/C13',
+      'Trusted: TLC; the harness\'s bijection between abstract parameter '
+      'indices and concrete parameter values.',
+      'TLA+ denotation (InputSpec.tla) + TLC-enumerated specification shapes '
+      'replayed through the real reader, judged by TLC',
+      'tlc-data')
+
 
 def build():
     checks = []
